@@ -1303,6 +1303,8 @@ class Engine(object):
             if isinstance(o, HInst):
                 if name in o.fields:
                     return [(o.fields[name], st)]
+                if o.cls in C.DICT_RECORDS:
+                    return [(VBound(v, name), st)]
                 return self.instance_attr(v, o, name, st, node)
             return [(VBound(v, name), st)]
         if isinstance(v, (VStr, VSeq, VTuple, VInt, VVal)):
@@ -1339,7 +1341,8 @@ class Engine(object):
                                                qual='%s:%s.%s' % (cls.__module__, cls.__qualname__, name))
             if attr is not None:
                 return [(VBound(ref, name), st)]
-        return self._safe_result(FALSE, NONE, AttributeError, st, node)
+        # an attribute the record declaration does not know is a gap of the contract files, not an AttributeError
+        raise Undecided('attribute %s of a %s object is not declared in its record' % (name, o.cls), node)
 
     def real_class(self, name):
         for modname in ('xdoctest.doctest_example', 'xdoctest.doctest_part', 'xdoctest.directive',
